@@ -68,6 +68,16 @@ def gen_cases(rng, tier):
         spec["objective"] = ocpgen.gen_objective(rng, spec, rng.randint(1, 2)) + [["*", E.rand_const(rng), hleaf]]
         cvals = [(ocpgen.rnd(rng, 0.2, 4.0, 3), ocpgen.rnd(rng, -2, 2, 3)) for _ in range(2 if tier == "quick" else 3)]
         cases.append({"spec": spec, "cvals": cvals, "K": 3 if tier == "quick" else 6, "seed": rng.getrandbits(32)})
+    for i in range(16 if tier == "quick" else 250):
+        tf_, t0f_ = rng.random() < 0.7, rng.random() < 0.4
+        if not (tf_ or t0f_):
+            tf_ = True
+        L = rng.choice([2, 3])
+        cases.append({"kind": "spline", "N": rng.choice([2, 3, 4, 5]), "len": L, "T_free": tf_, "t0_free": t0f_,
+                      "T": ocpgen.rnd(rng, 0.5, 3.0, 3), "t0": ocpgen.rnd(rng, -1.5, 1.5, 3), "x0": ocpgen.rnd(rng, -1, 1),
+                      "guess": [ocpgen.rnd(rng, -1, 1), ocpgen.rnd(rng, -1, 1), ocpgen.rnd(rng, -1, 1)],
+                      "guessed": [0],      # SplineMethod takes guesses for the head of a chain only (assertion otherwise)
+                      "grid": ocpgen.gen_grid(rng, ["uniform", "geometric", "function"], 3), "seed": rng.getrandbits(32)})
     return cases
 
 
@@ -87,10 +97,68 @@ def fixed_twin(spec, c, c0):
     return sp
 
 
+def run_spline(case):
+    """SplineMethod: a free horizon with guess c starts where the fixed horizon c starts (time-dependent guesses are
+    evaluated on the grid of the guessed horizon), and f, g coincide on the restriction T=c."""
+    import casadi as ca
+    import rockit
+    from ..gen import build
+    from ..obs import nlp
+    res = {"sig": "spline|N%d|%s|L%d|%s%s" % (case["N"], C.grid_tag(case["grid"]), case["len"],
+                                              "T" if case["T_free"] else "", "t0" if case["t0_free"] else ""),
+           "evals": 0, "violations": [], "counters": {"reference_points": 0, "twins": 0, "transported_points": 0,
+                                                      "T_ge_0_rows": 0, "spline_starts": 0}}
+
+    def mk(free):
+        kw = {"t0": rockit.FreeTime(case["t0"]) if (free and case["t0_free"]) else case["t0"],
+              "T": rockit.FreeTime(case["T"]) if (free and case["T_free"]) else case["T"]}
+        ocp = rockit.Ocp(**kw)
+        L = case["len"]
+        chain = [ocp.state() for _ in range(L - 1)] + [ocp.control()]
+        for j in range(L - 1):
+            ocp.set_der(chain[j], chain[j + 1])
+        ocp.add_objective(ocp.sum(sum(ca.sumsqr(c_) for c_ in chain), include_last=True) + 0.1 * ocp.T)
+        ocp.subject_to(ocp.at_t0(chain[0]) == case["x0"])
+        a, b_, c_ = case["guess"]
+        for j in case["guessed"]:
+            ocp.set_initial(chain[j], a + b_ * ocp.t + c_ * ca.sin(ocp.t))
+        ocp.method(rockit.SplineMethod(N=case["N"], grid=build.make_grid(case["grid"])))
+        ocp.solver("ipopt", {"ipopt.print_level": 0, "print_time": False})
+        view = C.call("transcribe", nlp.NlpView, ocp)
+        outs = [ca.MX(C.call("sample", ocp.sample, c__, grid="control")[1]) for c__ in chain]
+        outs += [ca.MX(C.call("sample", ocp.sample, ocp.t, grid="control")[1]), ca.MX(ocp.value(ocp.T)), ca.MX(ocp.value(ocp.t0))]
+        F = ca.Function("s", [view.x, view.p], outs)
+        return view, F
+    try:
+        vA, FA = mk(True)
+        vB, FB = mk(False)
+    except C.RockitRaised as e:
+        res["violations"].append(C.exc_violation(ID, e, "spline"))
+        return res
+    a_ = [np.array(v_, dtype=float).reshape(-1) for v_ in FA(vA.x0, vA.p0)]
+    b_ = [np.array(v_, dtype=float).reshape(-1) for v_ in FB(vB.x0, vB.p0)]
+    res["evals"] += 1
+    res["counters"]["spline_starts"] += 1
+    res["counters"]["twins"] += 1
+    names = ["chain[%d]" % j for j in range(case["len"])] + ["t", "T", "t0"]
+    for nm, x_, y_ in zip(names, a_, b_):
+        if x_.shape != y_.shape or np.max(np.abs(x_ - y_)) > 1e-10 * (1 + np.max(np.abs(y_))):
+            res["violations"].append({
+                "kind": "spline-start", "mech": "C11|start-differs-from-fixed-horizon-twin|SplineMethod",
+                "detail": "%s sampled on the control grid at the start point: free horizon (guess T=%g, t0=%g) %s, fixed "
+                          "horizon %s" % (nm, case["T"], case["t0"], C.short(x_[:6]), C.short(y_[:6]))})
+            return res
+    res["nontrivial"] = True
+    res["sample"] = {"family": "SplineMethod", "N": case["N"], "free": [k for k in ("T", "t0") if case[k + "_free"]]}
+    return res
+
+
 def run_case(case):
     import casadi as ca
     from . import engine
     from ..obs import nlp, transport
+    if case.get("kind") == "spline":
+        return run_spline(case)
     spec = case["spec"]
     which = "%s%s" % ("T" if spec["T"]["kind"] != "num" else "", "t0" if spec["t0"]["kind"] != "num" else "")
     sig = C.config_sig(spec, which)
